@@ -26,6 +26,7 @@ type XferOpt struct {
 	OwnConn    bool
 	CloseOrder []int
 	NoFaults   bool
+	Clean18    bool
 }
 
 var fecChoices = [][2]int{{0, 0}, {3, 1}, {1, 1}, {2, 2}, {10, 3}, {4, 1}, {1, 3}, {5, 5}, {16, 4}}
@@ -226,6 +227,12 @@ func (x *Xfer) Progress() bool {
 // Finish tears the world down, runs the leak census and fills the result.
 func (x *Xfer) Finish() {
 	s, r := x.S, x.R
+	if s.Viol != nil {
+		// the run is over; close everything without the grace period
+		r.Res.VirtualMs = int64(s.Now() / time.Millisecond)
+		x.W.QuickClose()
+		return
+	}
 	r.Res.Completed = x.Done()
 	r.Res.VirtualMs = int64(s.Now() / time.Millisecond) // workload time, without the teardown grace hour
 	r.Res.Progress = x.Progress()
@@ -234,7 +241,7 @@ func (x *Xfer) Finish() {
 			if ep.In != nil && ep.In.Read != ep.In.Target && ep.ReadErr == nil {
 				s.Fail("C01", "stream", "incomplete", "%s: transfer finished with %d of %d bytes read", ep.Name, ep.In.Read, ep.In.Target)
 			}
-			if ep.Out != nil && !ep.Out.NoCheck && ep.WriteErr == nil && ep.Out.WirePos != ep.Out.Written {
+			if ep.Out != nil && !ep.Out.NoCheck && ep.WriteErr == nil && ep.Peer != nil && ep.Peer.In.Read >= ep.Out.Written && ep.Out.WirePos != ep.Out.Written {
 				s.Fail("C09", "wire", "reassembly-incomplete", "%s: %d bytes written and delivered, but the wire decoder reassembled %d", ep.Name, ep.Out.Written, ep.Out.WirePos)
 			}
 		}
@@ -260,14 +267,267 @@ func (x *Xfer) Census() {
 	}
 }
 
+// ScriptCloses schedules a seeded sequence of Close calls (sessions, listener,
+// transports, in any order, at any point of the transfer) and returns a
+// predicate that is true once all of them have been performed.
+func (x *Xfer) ScriptCloses() func() bool {
+	s := x.S
+	const cs = "close"
+	ctl := s.NewActor("closer")
+	n := 1 + s.Tape.Choose(cs, 4)
+	at := time.Duration(s.Tape.Skewed(cs, 0, 4000000)) * time.Microsecond
+	remaining := n
+	for i := 0; i < n; i++ {
+		what := s.Tape.Choose(cs, 5)
+		s.At(at+time.Duration(i)*time.Nanosecond, "close", func() {
+			var f func() error
+			name := ""
+			switch what {
+			case 0:
+				name = "A"
+				ep := x.A
+				ep.CloseInvoked = true
+				f = func() error { err := ep.Sess.Close(); return err }
+			case 1:
+				if x.B == nil {
+					remaining--
+					return
+				}
+				name = "B"
+				ep := x.B
+				ep.CloseInvoked = true
+				f = func() error { return ep.Sess.Close() }
+			case 2:
+				if x.W.L == nil {
+					remaining--
+					return
+				}
+				name = "listener"
+				l := x.W.L
+				f = func() error { return l.Close() }
+			case 3:
+				name = "conn:" + x.A.Conn.addrStr
+				c := x.A.Conn
+				f = func() error { return c.Close() }
+			default:
+				c := x.W.LConn
+				if c == nil {
+					c = x.B.Conn
+				}
+				name = "conn:" + c.addrStr
+				f = func() error { return c.Close() }
+			}
+			if ctl.Busy() {
+				// previous close still running (it cannot block for long); retry shortly
+				remaining--
+				return
+			}
+			s.L.Logf("call Close(%s)", name)
+			s.Stats.Fault("close-midway")
+			ctl.Do("Close", func() any { return f() }, func(res any) {
+				s.L.Logf("ret  Close(%s) -> %v", name, res)
+				remaining--
+				switch what {
+				case 0:
+					x.A.Closed = true
+				case 1:
+					x.B.Closed = true
+				}
+			})
+		})
+		at += time.Duration(s.Tape.Skewed(cs, 0, 300000)) * time.Microsecond
+	}
+	return func() bool { return remaining <= 0 }
+}
+
+// sessBudget is the analytic over-approximation of the time a healed network
+// needs to drain what has been written (see coreBudget).
+func (x *Xfer) sessBudget() time.Duration {
+	maxXmit := uint32(0)
+	segs := 0
+	ivl := 100
+	for _, ep := range x.W.Eps {
+		if ep.Closed {
+			continue
+		}
+		st := ep.State()
+		if st.MaxXmit > maxXmit {
+			maxXmit = st.MaxXmit
+		}
+		segs += st.SndQueue + st.SndBuf + st.RcvQueue + st.RcvBuf
+		if int(st.Interval) > ivl {
+			ivl = int(st.Interval)
+		}
+	}
+	l := x.Opt.Link
+	rtt := 2 * time.Duration(l.BaseUs+l.JitterUs+l.ReorderUs) * time.Microsecond
+	per := rtt + 3*time.Duration(ivl)*time.Millisecond + 200*time.Millisecond
+	return 120*time.Second + time.Duration(maxXmit+2)*60*time.Second + time.Duration(segs+4)*per*2
+}
+
+// RunHeal is the sampled part of C02 at session level: faults (possibly a total
+// outage) until HealAfter, then a fair network. When the network heals the
+// writers stop; everything written must reach the readers and both backlogs
+// must return to zero within the budget.
+func (x *Xfer) RunHeal() {
+	s, o := x.S, x.Opt
+	s.Run(func() bool { return x.Done() || s.Now() >= o.HealAfter })
+	if s.Viol == nil && !x.Done() && s.CapHit == "" {
+		if x.B == nil {
+			// nothing of the client ever reached the listener during the fault period:
+			// the client keeps retransmitting, the accept must still happen
+			s.Stats.Probe("healed-before-accept")
+		}
+		stopWriters := func() {
+			for _, ep := range x.W.Eps {
+				if !ep.WriterDone {
+					ep.WriterDone = true
+				}
+				ep.Out.Target = ep.Out.Offered
+			}
+		}
+		stopWriters()
+		budget := x.sessBudget()
+		deadline := s.Now() + budget
+		s.L.Logf("healed; what was written must be delivered within %v", budget)
+		s.At(deadline, "liveness-deadline", func() {})
+		drained := func() bool {
+			if x.B == nil {
+				return false
+			}
+			stopWriters() // endpoints adopted after the heal
+			for _, ep := range x.W.Eps {
+				if ep.Writer != nil && ep.Writer.Busy() {
+					return false
+				}
+				ep.Out.Target = ep.Out.Written
+				if st := ep.StateLite(); ep.In.Read < ep.In.Target || st.SndQueue+st.SndBuf != 0 {
+					return false
+				}
+			}
+			return true
+		}
+		s.Run(func() bool { return drained() || s.Now() >= deadline })
+		if s.Viol == nil && !drained() && s.CapHit == "" {
+			detail := ""
+			for _, ep := range x.W.Eps {
+				st := ep.State()
+				detail += fmt.Sprintf(" %s{written=%d peer-read=%d snd_queue=%d snd_buf=%d unacked=%d una=%d nxt=%d rcv_nxt=%d rcv_queue=%d rcv_buf=%d rmt_wnd=%d cwnd=%d rto=%d maxxmit=%d probe_wait=%d acklist=%d}",
+					ep.Name, ep.Out.Written, ep.Out.Read, st.SndQueue, st.SndBuf, st.SndBufUnacked, st.SndUna, st.SndNxt, st.RcvNxt, st.RcvQueue, st.RcvBuf, st.RmtWnd, st.Cwnd, st.RxRto, st.MaxXmit, st.ProbeWait, st.AckList)
+			}
+			if x.B == nil {
+				detail = " the listener never produced an Accept for the client"
+			}
+			s.Fail("C02", "liveness", "backlog-not-drained", "%v after the network healed the transfer is still incomplete:%s", budget, detail)
+		}
+		for _, ep := range x.W.Eps {
+			ep.ReaderDone = true
+		}
+	}
+	x.R.Res.Completed = s.Viol == nil && s.CapHit == ""
+	x.R.Res.Progress = x.Progress()
+	x.R.Res.VirtualMs = int64(s.Now() / time.Millisecond)
+	if s.Viol != nil {
+		x.W.QuickClose()
+		return
+	}
+	x.Census()
+}
+
 func scenXfer(r *Run) {
 	o := DrawXferOpt(r.S.Tape, r.Spec.Tier)
 	switch r.Spec.Stratum {
 	case "clean":
 		o.Link.LossPM, o.Link.DupPM, o.Link.ReorderPM, o.Link.GEGoodBad, o.Link.Outages = 0, 0, 0, 0, nil
 	}
+	if r.Spec.Stratum == "clean18" {
+		// C18 clean path at session level: FIFO, constant delay, nothing lost,
+		// duplicated or reordered; window precondition; RTT plus the peer's
+		// acknowledgement delay below the sender's minimum RTO; readers keep up
+		const cs = "cfg"
+		t := r.S.Tape
+		o.Link = LinkCfg{FIFO: true}
+		sw := func(c *SessCfg) int {
+			if c.SndWnd > 0 {
+				return c.SndWnd
+			}
+			return 32
+		}
+		rw := func(c *SessCfg) int {
+			if c.RcvWnd > 0 {
+				return c.RcvWnd
+			}
+			return 32
+		}
+		fix := func(rx, tx *SessCfg) {
+			if need := min(sw(tx), 32); rw(rx) < need {
+				rx.RcvWnd = need
+			}
+		}
+		fix(&o.CfgA, &o.CfgB)
+		fix(&o.CfgB, &o.CfgA)
+		minRTO := func(c *SessCfg) int {
+			if c.SetNoDelay && c.NoDelay != 0 {
+				return 30
+			}
+			return 100
+		}
+		ivl := func(c *SessCfg) int {
+			if c.SetNoDelay {
+				return max(10, min(c.Interval, 5000))
+			}
+			return 100
+		}
+		ackDelay := func(peer, sender *SessCfg) int {
+			if !peer.AckNoDelay && ivl(peer) >= minRTO(sender)-4 {
+				peer.AckNoDelay = true
+			}
+			if peer.AckNoDelay {
+				return 0
+			}
+			return ivl(peer)
+		}
+		dA := (minRTO(&o.CfgA) - 3 - ackDelay(&o.CfgB, &o.CfgA)) * 1000 / 2
+		dB := (minRTO(&o.CfgB) - 3 - ackDelay(&o.CfgA, &o.CfgB)) * 1000 / 2
+		o.Link.BaseUs = 1 + t.Skewed(cs, 0, min(dA, dB)-2)
+		o.CfgA.RateLimit, o.CfgB.RateLimit = 0, 0
+		for _, m := range []*IOMode{&o.RModeA, &o.RModeB} {
+			m.PausePM, m.StallAt = 0, 0
+		}
+		o.Clean18 = true
+	}
+	if r.Spec.Stratum == "heal" {
+		const cs = "cfg"
+		t := r.S.Tape
+		o.HealAfter = time.Duration(1+t.Skewed(cs, 0, 20000)) * time.Millisecond
+		if t.Chance(cs, 500) {
+			from := time.Duration(t.Skewed(cs, 0, 5000)) * time.Millisecond
+			length := time.Duration(1+t.Skewed(cs, 0, 600000)) * time.Millisecond
+			o.Link.Outages = append(o.Link.Outages, Window{from, from + length})
+			if from+length > o.HealAfter {
+				o.HealAfter = from + length
+			}
+		}
+		o.MaxVirtual = o.HealAfter + 6*time.Hour
+	}
 	x := NewXfer(r, o)
-	r.S.Run(x.Done)
+	if o.Clean18 {
+		x.W.CheckOnce = true
+	}
+	if r.Spec.Stratum == "heal" {
+		x.RunHeal()
+		return
+	}
+	if r.Spec.Stratum == "close" {
+		closed := x.ScriptCloses()
+		r.S.Run(func() bool { return closed() || x.Done() })
+		if r.S.Viol == nil {
+			// let blocked calls observe the close, then take the census
+			r.S.Settle(time.Duration(1+r.S.Tape.Skewed("close", 0, 3000)) * time.Millisecond)
+		}
+	} else {
+		r.S.Run(x.Done)
+	}
 	x.Finish()
 }
 
